@@ -220,10 +220,14 @@ pub fn run(tier: &str, seed: u64, replay: Option<String>) -> i32 {
     // ---- editor sessions from the empty model: every prefix is a recompute
     let n_sessions = if thorough { 3000 } else { 150 };
     let mut n_session_steps = 0usize;
+    let mut sessions: Vec<Vec<MEdit>> = modelfault::minimal_sessions().into_iter().map(|(_, ops)| ops).filter(|o| !o.is_empty()).collect();
     for _ in 0..n_sessions {
-        let ops = modelfault::editor_session(&mut rng);
+        sessions.push(modelfault::editor_session(&mut rng));
+    }
+    for ops in &sessions {
         for k in 1..=ops.len() {
-            steps.push(json!({"base": "empty", "edits": ops[..k], "what": "session", "require_all": false}));
+            // consecutive recomputes of one session stay consecutive: probe after the last only
+            steps.push(json!({"base": "empty", "edits": ops[..k], "what": "session", "require_all": false, "probe": k == ops.len()}));
             n_session_steps += 1;
         }
     }
